@@ -1834,3 +1834,21 @@ def bi_filter(interp, st, args, kwargs, node):
 
 
 BUILTINS["filter"] = bi_filter
+
+
+def lib_opaque_ctor(name):
+    def ctor(interp, st, args, kwargs, node):
+        I = _I()
+        M = _M()
+        from .npmodel3 import _flat_obj_args
+
+        flat = _flat_obj_args(args, kwargs)
+        if not flat:
+            return z3.Const(V.fresh_name(name), I.OBJ_SORT)
+        fn = z3.Function(f"ctor.{name}!" + "_".join(str(x.sort()).replace(" ", "") for x in flat)[:160], *([x.sort() for x in flat] + [I.OBJ_SORT]))
+        return fn(*flat)
+
+    return ctor
+
+
+LIBFUNCS.update({"pathlib.Path": lib_opaque_ctor("Path"), "zanj.ZANJ": lib_opaque_ctor("ZANJ")})
